@@ -51,6 +51,7 @@ def new_text(old: str) -> str:
 
 class Scenario:
     link = False
+    outarg = None      # stdout-mode scenarios with an explicit -o that names the input file itself ("same", "dot", "abs", "alias")
 
     def __init__(self, sid, mode, backup, nfiles, outexists, badv, status, hist, fs):
         self.sid, self.mode, self.backup, self.nfiles, self.outexists = sid, mode, backup, nfiles, outexists
@@ -65,7 +66,7 @@ class Scenario:
 
     def key(self):
         return dict(mode=self.mode, backup=self.backup, nfiles=self.nfiles, outexists=self.outexists, bad=self.bad,
-                    kind=self.kind, op=self.op, file=self.file, errno=self.errno, badkind=self.badkind, link=self.link)
+                    kind=self.kind, op=self.op, file=self.file, errno=self.errno, badkind=self.badkind, link=self.link, outarg=self.outarg)
 
 
 def materialise(sc: Scenario, new: str):
@@ -97,6 +98,12 @@ def materialise(sc: Scenario, new: str):
     if sc.mode == "inplace":
         argv += ["--inplace"] + ([] if sc.backup else ["--nobackup"]) + names
     elif sc.mode == "stdout":
+        if sc.outarg:
+            # no --inplace: whatever the tool makes of "-o <the input itself>", the input must keep its content
+            spelled = {"same": names[0], "dot": "./" + names[0], "abs": os.path.join(root, names[0]), "alias": "alias.md"}[sc.outarg]
+            if sc.outarg == "alias":
+                os.symlink(names[0], os.path.join(root, "alias.md"))
+            argv += ["-o", spelled]
         argv += names
     else:
         argv += ["-o", "out.md", "-"]
@@ -141,7 +148,7 @@ def disk_state(root, names, olds, newb):
         st["tmp"][f] = cls(parts[0], f) if parts else "Absent"
     known = set(names) | {n + ".orig" for n in names}
     for e in os.listdir(root):
-        if e not in known and not e.endswith(".partial") and e != "real":
+        if e not in known and not e.endswith(".partial") and e not in ("real", "alias.md"):
             extra.append(e)
     return st, extra
 
@@ -274,6 +281,11 @@ def run(tier: str) -> int:
                 continue
             todo.append(c)
     chk.notes["model_scenarios"] = len(scenarios)
+    for oa in ("same", "dot", "abs", "alias"):
+        c = Scenario(0, "stdout", False, 1, True, [False], "done", [], {})
+        c.outarg = oa
+        c.kind, c.op, c.file = "generic", "-o names the input", 1
+        todo.append(c)
     with ThreadPoolExecutor(16) as ex:
         obs = list(ex.map(lambda s: execute(s, newb), todo))
         # implementation-agnostic crash points: kill at EVERY file-system event of the fault-free run of each
